@@ -67,7 +67,13 @@ func PanicKind(r interface{}) string {
 // Frame returns the innermost stack frame inside /repo (file:function), for finding signatures.
 func Frame(stack []byte) string {
 	lines := strings.Split(string(stack), "\n")
-	for i := 0; i+1 < len(lines); i++ {
+	start := 0
+	for i, l := range lines { // a deferred function that re-panics hides the origin: start after the last panic()
+		if strings.HasPrefix(l, "panic(") {
+			start = i
+		}
+	}
+	for i := start; i+1 < len(lines); i++ {
 		l := strings.TrimSpace(lines[i+1])
 		if strings.HasPrefix(l, "/repo/") && !strings.Contains(l, "verif_hooks") {
 			fn := strings.TrimSpace(lines[i])
